@@ -68,6 +68,18 @@ def run_mc(tier, invariants, extra_consts=None, workers=8, prop=None):
         tot["transitions"] = tot.get("transitions", 0) + r["states"]
         tot["violated"] += r["violated"]
         tot["configs"].append({k: (v[1] if isinstance(v, tuple) else v) for k, v in c.items()} | {"distinct": r["distinct"], "depth": r["depth"]})
+    if prop == "C12":
+        # unbounded history length: the bookkeeping invariant is inductive (every state satisfying it x every operation)
+        c = {"NK": 2 if tier == "quick" else 3}
+        out = tlc("MCCounts", cfg_text(c, invariants=["Inv_C12_Inductive"], extra=["PROPERTY Unref_C07"]), workers=workers, timeout=2400,
+                  heap="8g", name="mcind")
+        r = parse_mc(out)
+        if r["error"] or not r["finished"]:
+            raise ToolError("MCCounts failed: " + str(r["error"]) + out[-2000:])
+        tot["states"] += r["distinct"]
+        tot["transitions"] += r["states"]
+        tot["violated"] += r["violated"]
+        tot["configs"].append(dict(c, module="MCCounts", inductive=True, distinct=r["distinct"]))
     return tot
 
 
